@@ -607,3 +607,12 @@ def proved(run):
             f(run)
         except (I.OutOfSubset, KeyError) as e:
             run.obligation(f"C04/{getattr(f, '__name__', 'step')}", "out-of-subset", detail=str(e))
+    # the chart update shared by both Earley parsers (stated in C02 as well): a stored weight that is exactly zero - 0.0 after
+    # underflow in a long context - must not make the item look new
+    from props import C02_proved
+    for mod, rel in C02_proved.EARLEY.items():
+        try:
+            run.function_under_contract(f"genlm.grammar.parse.{mod}.Earley._update", source.sha(source.find(rel, "Earley._update")))
+            C02_proved.update_accumulates(run, mod, rel, pid="C04")
+        except (I.OutOfSubset, I.PyRaise, KeyError) as e:
+            run.obligation(f"C04/{mod}.Earley._update/accumulates-registers-once", "out-of-subset", detail=str(e))
